@@ -30,7 +30,7 @@ def write(prop, tier, mod, results, wall, nviol):
         if st in ("covered", "violation", "known_finding", "cosim_ok"):
             validated += 1
         solver_s += float(r.get("solver_s") or 0)
-        if st == "covered" and len(samples) < 4:
+        if st == "covered" and "step" in r and len(samples) < 4:
             samples.append(dict(kind="cover witness replayed on pysim", query=r["query"], check=r["check"],
                                 step=r["step"], inputs=r.get("witness")))
         if st in ("violation", "known_finding") and len(samples) < 6:
